@@ -16,6 +16,12 @@ open CalmVerif.Props.C13
 #print axioms set_comments_verbatim
 #print axioms no_comment_attached_twice
 #print axioms actions_never_read_comments
+#print axioms action_slots_used_once
+#print axioms actions_read_plain_attributes
+#print axioms comments_attached_once
+#print axioms shifted_comments_are_source_comments
+#print axioms comments_faithful
+#print axioms comments_in_source_order_partial
 #print axioms line_comment_followed_by_newline
 #print axioms comment_carriers_print_comments_partial
 #print axioms case_block_drops_comments
@@ -37,6 +43,12 @@ open CalmVerif.Props.C13
 #check @set_comments_verbatim
 #check @no_comment_attached_twice
 #check @actions_never_read_comments
+#check @action_slots_used_once
+#check @actions_read_plain_attributes
+#check @comments_attached_once
+#check @shifted_comments_are_source_comments
+#check @comments_faithful
+#check @comments_in_source_order_partial
 #check @line_comment_followed_by_newline
 #check @comment_carriers_print_comments_partial
 #check @case_block_drops_comments
